@@ -21,7 +21,9 @@ func init() { register("c15", c15) }
 // replication times of every TXID and checks the result against the fold of
 // archived level-0 files.
 func c15Oracle(s *scn.Scn, a *archive) (probs []*scn.Problem, nT int, harness error) {
-	add := func(k, d string) { probs = append(probs, &scn.Problem{Kind: k, Detail: d + " [" + scn.Shape(s.ReplicaDir) + "]"}) }
+	add := func(k, d string) {
+		probs = append(probs, &scn.Problem{Kind: k, Detail: d + " [" + scn.Shape(s.ReplicaDir) + "]"})
+	}
 	var maxT ltx.TXID
 	for n := range a.l0 {
 		if n > maxT {
